@@ -458,6 +458,9 @@ def run(ctx):
     vp.cargo_build([DRIVER])
     quick = ctx.quick
     caps = [0, 1, 2] if quick else [0, 1, 2, 3, 4]
+    # the slot map's free list needs three keys before a non-head key with a successor exists (seeded change C16/4: stale
+    # back link after insert_at on a non-head key): capacity 3 also in the quick tier
+    caps_k = {kind: (caps + [3] if quick and kind == "slotmap" else caps) for kind in KINDS}
     budget = 400_000 if quick else 2_000_000
     ctx.assumptions += [
         "element domain: 3 tokens; string bytes {0,'a','b','/',0xC8}; slices of length <= 2; capacities " + str(caps),
@@ -474,7 +477,7 @@ def run(ctx):
     stats = new_stats()
     automata, jobs, trace_jobs = {}, [], {}
     # ---- 1. TLC: model check the reference models, dump the graphs
-    graphs = parallel(mc_graph, [(ctx, k["module"], caps, k["consts"], k["invs"], "c16") for k in KINDS.values()])
+    graphs = parallel(mc_graph, [(ctx, k["module"], caps_k[kind], k["consts"], k["invs"], "c16") for kind, k in KINDS.items()])
     for (kind, k), (edges, res) in zip(KINDS.items(), graphs):
         check_vacuity(kind, edges, k["need"])
         aut, ns, ne = build_automaton(ctx, kind, edges, "c16")
@@ -483,7 +486,7 @@ def run(ctx):
     # ---- 2. lock-step on every flavour and capacity
     for kind in KINDS:
         for fl in flavours_of(kind):
-            for cap in caps:
+            for cap in caps_k[kind]:
                 common = ["--avoid-known"]
                 jobs.append(((automata[kind], kind, fl, cap, "cover", []), {}))
                 jobs.append(((automata[kind], kind, fl, cap, "paths", common + ["--merge", "--depth", 6, "--budget", budget]), {}))
